@@ -290,7 +290,10 @@ func (v *Val) String() string {
 // Borrow describes a byte slice handed out by (*bufio.Reader).ReadLine: it aliases the reader's internal
 // buffer and is only valid until the next read on that reader. Active says whether the value is such a
 // slice at all (it may be, on some paths), Reader/Epoch identify the reader and its read count at hand-out.
-type Borrow struct{ Active, Reader, Epoch string }
+type Borrow struct {
+	Active, Reader, Epoch string
+	Pool                  bool // a pool buffer: may be stored and handed on, but not used after it was released
+}
 
 // LimInfo: an io.LimitReader wrapping reader Src (a reference term) with limit N.
 type LimInfo struct{ Src, N string }
